@@ -216,7 +216,10 @@ class CodeWrapper(object):
 
             for i, e_burst in enumerate(lead_out):
                 idx = ~(i - len(lead_out)) + 1
-                burst = code.pop(len(code) - idx)
+                try:
+                    burst = code.pop(len(code) - idx)
+                except IndexError:
+                    raise LeadOutError
 
                 if self._match(burst, e_burst):
                     cleaned_lead_out += [e_burst]
@@ -301,7 +304,10 @@ class CodeWrapper(object):
                         cleaned_lead_out += [e_burst]
                         break
                 else:
-                    if self._match(e_burst, total_time + abs(burst)):
+                    if (
+                        i + 1 == len(lead_out) and
+                        self._match(e_burst, total_time + abs(burst))
+                    ):
                         cleaned_lead_out += [None]
 
                     elif not cleaned_lead_out:
@@ -356,183 +362,186 @@ class CodeWrapper(object):
         elif self._stream_encoding == 'manchester':
             mark, space = bursts[0]
 
-            for i, burst in enumerate(code[:]):
-                if self._match(burst, mark):
-                    pairs += [mark]
-                    cleaned_code += [mark]
-                    continue
+            try:
+                for i, burst in enumerate(code[:]):
+                    if self._match(burst, mark):
+                        pairs += [mark]
+                        cleaned_code += [mark]
+                        continue
 
-                if self._match(burst, space):
-                    pairs += [space]
-                    cleaned_code += [space]
-                    continue
+                    if self._match(burst, space):
+                        pairs += [space]
+                        cleaned_code += [space]
+                        continue
 
-                for timing in middle_timings:
-                    if isinstance(timing, dict):
-                        if (
-                            len(pairs) // 2 < timing['start'] - 1 or
-                            len(pairs) // 2 > timing['stop'] - 1
-                        ):
-                            continue
-
-                        t_mark, t_space = timing['bursts'][0]
-
-                        if self._match(burst, t_mark):
-                            pairs += [t_mark]
-                            cleaned_code += [t_mark]
-                            break
-
-                        if self._match(burst, t_space):
-                            pairs += [t_space]
-                            cleaned_code += [t_space]
-                            break
-
-                        if self._match(burst, t_mark * 2):
-                            pairs += [t_mark, t_mark]
-                            cleaned_code += [t_mark, t_mark]
-                            break
-
-                        if self._match(burst, t_space * 2):
-                            pairs += [t_space, t_space]
-                            cleaned_code += [t_space, t_space]
-                            break
-
-                        if self._match(burst, mark + t_mark):
-                            if pairs[-1] == space:
-                                pairs += [mark, t_mark]
-                                cleaned_code += [mark, t_mark]
-                                break
-                            if pairs[-1] == t_space:
-                                pairs += [t_mark, mark]
-                                cleaned_code += [t_mark, mark]
-                                break
-
-                        if self._match(burst, space + t_space):
-                            if pairs[-1] == mark:
-                                pairs += [space, t_space]
-                                cleaned_code += [space, t_space]
-                                break
-                            if pairs[-1] == t_mark:
-                                pairs += [t_space, space]
-                                cleaned_code += [t_space, space]
-                                break
-
-                else:
-                    for timing in middle_timings[:]:
+                    for timing in middle_timings:
                         if isinstance(timing, dict):
-                            continue
-
-                        if isinstance(timing, tuple):
-                            t_mark, t_space = timing
-
-                            if cleaned_code[-1] == t_mark:
-                                if self._match(burst, t_space):
-                                    middle_timings.remove(timing)
-                                    cleaned_code += [t_space]
-                                    break
-
-                                if self._match(burst, t_space * 2):
-                                    pairs += [t_space]
-                                    middle_timings.remove(timing)
-                                    cleaned_code += [t_space, t_space]
-                                    break
-
-                                if self._match(burst, space + t_space):
-                                    middle_timings.remove(timing)
-                                    if pairs[-1] == mark:
-                                        pairs += [space]
-                                        cleaned_code += [space, t_space]
-                                    else:
-                                        pairs += [space]
-                                        cleaned_code += [t_space, space]
-                                    break
-
-                            if self._match(burst, t_mark):
-                                if self._match(code[i + 1], t_space):
-                                    cleaned_code += [t_mark]
-                                    break
-
-                                if self._match(code[i + 1], t_space + space):
-                                    cleaned_code += [t_mark]
-                                    break
-
-                            if self._match(burst, t_mark + mark):
-                                if self._match(code[i + 1], t_space):
-                                    cleaned_code += [mark, t_mark]
-                                    pairs += [mark]
-                                    break
-
-                                if self._match(code[i + 1], t_space + space):
-                                    cleaned_code += [mark, t_mark]
-                                    pairs += [mark]
-                                    break
-
-                            else:
+                            if (
+                                len(pairs) // 2 < timing['start'] - 1 or
+                                len(pairs) // 2 > timing['stop'] - 1
+                            ):
                                 continue
 
-                            break
-                        elif self._match(burst, timing):
-                            middle_timings.remove(timing)
-                            cleaned_code += [timing]
-                            break
+                            t_mark, t_space = timing['bursts'][0]
 
-                        elif timing < 0 > mark or timing > 0 < mark:
-                            if self._match(burst, timing + mark):
-                                pairs += [mark]
-                                cleaned_code += [mark, timing]
-                                middle_timings.remove(timing)
+                            if self._match(burst, t_mark):
+                                pairs += [t_mark]
+                                cleaned_code += [t_mark]
                                 break
 
-                            if self._match(burst, timing + (mark * 2)):
-                                pairs += [mark, mark]
-                                cleaned_code += [mark, timing, mark]
-                                middle_timings.remove(timing)
+                            if self._match(burst, t_space):
+                                pairs += [t_space]
+                                cleaned_code += [t_space]
                                 break
 
-                        elif timing < 0 > space or timing > 0 < space:
-                            if self._match(burst, timing + space):
-                                pairs += [space]
-                                cleaned_code += [space, timing]
-                                middle_timings.remove(timing)
+                            if self._match(burst, t_mark * 2):
+                                pairs += [t_mark, t_mark]
+                                cleaned_code += [t_mark, t_mark]
                                 break
 
-                            if self._match(burst, timing + (space * 2)):
-                                pairs += [space, space]
-                                cleaned_code += [space, timing, space]
-                                middle_timings.remove(timing)
+                            if self._match(burst, t_space * 2):
+                                pairs += [t_space, t_space]
+                                cleaned_code += [t_space, t_space]
                                 break
+
+                            if self._match(burst, mark + t_mark):
+                                if pairs[-1] == space:
+                                    pairs += [mark, t_mark]
+                                    cleaned_code += [mark, t_mark]
+                                    break
+                                if pairs[-1] == t_space:
+                                    pairs += [t_mark, mark]
+                                    cleaned_code += [t_mark, mark]
+                                    break
+
+                            if self._match(burst, space + t_space):
+                                if pairs[-1] == mark:
+                                    pairs += [space, t_space]
+                                    cleaned_code += [space, t_space]
+                                    break
+                                if pairs[-1] == t_mark:
+                                    pairs += [t_space, space]
+                                    cleaned_code += [t_space, space]
+                                    break
+
                     else:
-                        if self._match(burst, mark * 2):
-                            pairs += [mark, mark]
-                            cleaned_code += [mark, mark]
+                        for timing in middle_timings[:]:
+                            if isinstance(timing, dict):
+                                continue
 
-                        elif self._match(burst, space * 2):
-                            pairs += [space, space]
-                            cleaned_code += [space, space]
-                        else:
-                            if (
-                                lead_in and
-                                lead_in[-1] == -999999999999 and
-                                i + 1 == len(code)
-                            ):
-                                if len(pairs) % 2:
-                                    for mark, space in bursts:
-                                        if space > 0:
-                                            continue
+                            if isinstance(timing, tuple):
+                                t_mark, t_space = timing
 
-                                        if mark == pairs[-1]:
+                                if cleaned_code[-1] == t_mark:
+                                    if self._match(burst, t_space):
+                                        middle_timings.remove(timing)
+                                        cleaned_code += [t_space]
+                                        break
+
+                                    if self._match(burst, t_space * 2):
+                                        pairs += [t_space]
+                                        middle_timings.remove(timing)
+                                        cleaned_code += [t_space, t_space]
+                                        break
+
+                                    if self._match(burst, space + t_space):
+                                        middle_timings.remove(timing)
+                                        if pairs[-1] == mark:
                                             pairs += [space]
-                                            cleaned_code += [
-                                                space,
-                                                burst - space
-                                            ]
-                                            break
-                                    else:
-                                        raise IRStreamError
+                                            cleaned_code += [space, t_space]
+                                        else:
+                                            pairs += [space]
+                                            cleaned_code += [t_space, space]
+                                        break
+
+                                if self._match(burst, t_mark):
+                                    if self._match(code[i + 1], t_space):
+                                        cleaned_code += [t_mark]
+                                        break
+
+                                    if self._match(code[i + 1], t_space + space):
+                                        cleaned_code += [t_mark]
+                                        break
+
+                                if self._match(burst, t_mark + mark):
+                                    if self._match(code[i + 1], t_space):
+                                        cleaned_code += [mark, t_mark]
+                                        pairs += [mark]
+                                        break
+
+                                    if self._match(code[i + 1], t_space + space):
+                                        cleaned_code += [mark, t_mark]
+                                        pairs += [mark]
+                                        break
+
                                 else:
-                                    cleaned_code += [space, burst]
+                                    continue
+
+                                break
+                            elif self._match(burst, timing):
+                                middle_timings.remove(timing)
+                                cleaned_code += [timing]
+                                break
+
+                            elif timing < 0 > mark or timing > 0 < mark:
+                                if self._match(burst, timing + mark):
+                                    pairs += [mark]
+                                    cleaned_code += [mark, timing]
+                                    middle_timings.remove(timing)
+                                    break
+
+                                if self._match(burst, timing + (mark * 2)):
+                                    pairs += [mark, mark]
+                                    cleaned_code += [mark, timing, mark]
+                                    middle_timings.remove(timing)
+                                    break
+
+                            elif timing < 0 > space or timing > 0 < space:
+                                if self._match(burst, timing + space):
+                                    pairs += [space]
+                                    cleaned_code += [space, timing]
+                                    middle_timings.remove(timing)
+                                    break
+
+                                if self._match(burst, timing + (space * 2)):
+                                    pairs += [space, space]
+                                    cleaned_code += [space, timing, space]
+                                    middle_timings.remove(timing)
+                                    break
+                        else:
+                            if self._match(burst, mark * 2):
+                                pairs += [mark, mark]
+                                cleaned_code += [mark, mark]
+
+                            elif self._match(burst, space * 2):
+                                pairs += [space, space]
+                                cleaned_code += [space, space]
                             else:
-                                raise IRStreamError(str(burst))
+                                if (
+                                    lead_in and
+                                    lead_in[-1] == -999999999999 and
+                                    i + 1 == len(code)
+                                ):
+                                    if len(pairs) % 2:
+                                        for mark, space in bursts:
+                                            if space > 0:
+                                                continue
+
+                                            if mark == pairs[-1]:
+                                                pairs += [space]
+                                                cleaned_code += [
+                                                    space,
+                                                    burst - space
+                                                ]
+                                                break
+                                        else:
+                                            raise IRStreamError
+                                    else:
+                                        cleaned_code += [space, burst]
+                                else:
+                                    raise IRStreamError(str(burst))
+            except IndexError:
+                raise IRStreamError
 
             tmp = []
 
